@@ -79,7 +79,7 @@ func (p *Pool) Close() {
 
 func startWorker() (*worker, error) {
 	cmd := exec.Command(os.Args[0], "-test.run", "^TestVerif$", "-test.timeout", "0")
-	cmd.Env = append(os.Environ(), "VERIF_ROLE=worker", "GOMAXPROCS=2", "GOMEMLIMIT=1500MiB")
+	cmd.Env = append(os.Environ(), "VERIF_ROLE=worker", "GOMAXPROCS=1", "GOGC=400", "GOMEMLIMIT=2000MiB")
 	jr, jw, err := os.Pipe()
 	if err != nil {
 		return nil, err
